@@ -570,6 +570,21 @@ def cython_extract(repo, cconst):
     return raw, protos
 
 
+def cython_bodies(repo):
+    """python/xraylib_np.pyx: for every `def NAME(` the list of `xrl.<fn>(` calls in its body -> [(NAME, line, [fn, …])]"""
+    rel = 'python/xraylib_np.pyx'
+    out = []; cur = None
+    for ln, l in enumerate(open(os.path.join(repo, rel)).read().splitlines(), 1):
+        m = re.match(r'def\s+(\w+)\s*\(', l)
+        if m:
+            cur = (m.group(1), ln, []); out.append(cur); continue
+        if cur is not None and (l.startswith(' ') or l.startswith('\t') or not l.strip()):
+            cur[2].extend(re.findall(r'\bxrl\.(\w+)\s*\(', re.sub(r'#.*', '', l)))
+        elif l.strip():
+            cur = None
+    return out
+
+
 def cy_type(t, file, line):
     t = re.sub(r'\s+', ' ', t.replace('*', ' * ')).strip()
     t = re.sub(r'\bconst\b|\bstruct\b', '', t); t = re.sub(r'\s+', ' ', t).strip().replace(' *', '*')
@@ -633,7 +648,8 @@ def idl_constants(repo):
     assigned = {c.name.upper() for c in consts}
     not_common = sorted(c.name for c in consts if c.name.upper() not in cu)
     not_assigned = sorted(c for c in common if c.upper() not in assigned)
-    return consts, dict(common=len(common), assigned_not_in_common=not_common, common_never_assigned=not_assigned, files=files)
+    return consts, dict(common=len(common), assigned_not_in_common=not_common, common_never_assigned=not_assigned, files=files,
+                        common_names=sorted({c.upper() for c in common}), assigned_names=sorted(assigned))
 
 
 # =====================================================================================================
